@@ -132,7 +132,7 @@ func Run(o Options) int {
 	sopt := solve.Options{TmpDir: tmp, BatchMs: 2000, SingleMs: 20000, KeepFiles: o.KeepFiles}
 	if o.Tier == "thorough" {
 		sopt.BatchMs = 10000
-		sopt.SingleMs = 60000
+		sopt.SingleMs = 30000
 		sopt.AllBackends = true
 	}
 	if o.KeepFiles {
